@@ -25,6 +25,21 @@ def near(a, b):
     return abs(a - b) <= 1e-9 * max(1.0, abs(a), abs(b))
 
 
+def spied_sample(run, newest: list):
+    """the sample the detector handed to `ks_2samp` in its last update (observed at the library boundary, `dets.KS_CALLS`), or None when it made no single KS test
+    with the newest values as one of the two arguments"""
+    c = getattr(run, "ks_call", None)
+    if not c:
+        return None
+    a, b = c
+    nw = [float(v) for v in newest]
+    if b == nw:
+        return a
+    if a == nw:
+        return b
+    return None
+
+
 def kswin_sensitive(out: Outcome, rng, p: dict, xs: list, runners: list) -> None:
     """threshold-adjacent configurations: KSWIN's p-values do not depend on alpha (the window is never cut), so a first run yields the exact
     p-value of every step; alpha is then set 3% above and 3% below the p-value of one step and the run repeated with the same generator
@@ -42,7 +57,10 @@ def kswin_sensitive(out: Outcome, rng, p: dict, xs: list, runners: list) -> None
         if t >= W and "t=" in probe.lines[-1]:
             win = xs[t - W: t]
             tape = [int(i) for i in probe.lines[-1].split("t=")[1].split(",")]
-            pvals[t] = float(ks_2samp(np.array([win[: W - r][i] for i in tape]), np.array(win[W - r:]), alternative="two-sided", method="auto").pvalue)
+            smp = spied_sample(probe, win[W - r:])
+            if smp is None:
+                smp = [win[: W - r][i] for i in tape]
+            pvals[t] = float(ks_2samp(np.array(smp), np.array(win[W - r:]), alternative="two-sided", method="auto").pvalue)
     cand = [t for t, q in pvals.items() if 1e-6 < q < 0.9]
     if not cand:
         return
@@ -55,7 +73,17 @@ def kswin_sensitive(out: Outcome, rng, p: dict, xs: list, runners: list) -> None
             run.update(x)
         rep = {"class": "KSWIN", "params": q, "stream": xs[:t_star], "step": t_star, "numpy_seed": np_seed, "kind": "sensitive"}
         want = factor > 1
-        if run.err is None and bool(run.det.drift) != want:
+        smp = spied_sample(run, xs[t_star - r: t_star]) if run.err is None else None
+        if smp is not None:
+            # judged on the sample the detector actually tested, whatever generator it came from
+            p2 = float(ks_2samp(np.array(smp), np.array(xs[t_star - r: t_star]), alternative="two-sided", method="auto").pvalue)
+            if p2 != pvals[t_star]:
+                out.count("kswin_sensitive_sample_not_reproduced")
+                want = None if near(p2, q["alpha"]) else (p2 <= q["alpha"])
+            if want is not None and bool(run.det.drift) != want:
+                out.violation(f"KSWIN: the KS p-value of the sample the detector tested at step {t_star} is {p2!r}, alpha={q['alpha']!r} "
+                              f"({'3% above' if factor > 1 else '3% below'} the p-value of the first run), drift={bool(run.det.drift)}", rep)
+        elif run.err is None and bool(run.det.drift) != want:
             (out.violation if run.tape_ok else out.mismatch)(f"KSWIN: with alpha set {'above' if want else 'below'} the exact KS p-value {pvals[t_star]!r} of step {t_star} (alpha={q['alpha']!r}) "
                           f"drift={bool(run.det.drift)}", rep)
         runners.append(run)
@@ -88,13 +116,37 @@ def kswin_case(out: Outcome, rng, p: dict, xs: list, runners: list) -> None:
             continue
         older, newest = want_win[: W - r], want_win[W - r:]
         tape = [int(i) for i in run.lines[-1].split("t=")[1].split(",")]
+        # the sample the detector ACTUALLY tested (seen at the call of `ks_2samp`): the clauses of the property are decided on it, whatever generator drew it -
+        # "an equally sized sample drawn WITHOUT REPLACEMENT from the OLDER ones", and "drift iff its KS p-value against the newest values is <= alpha"
+        smp = spied_sample(run, newest)
+        if smp is not None:
+            from collections import Counter
+            have, pool = Counter(smp), Counter(float(v) for v in older)
+            if len(smp) != r:
+                out.violation(f"KSWIN: the sample tested at step {t} has {len(smp)} values, num_test_instances={r}", rep)
+                break
+            if any(have[v] > pool.get(v, 0) for v in have):
+                out.violation(f"KSWIN: the sample tested at step {t} is not drawn without replacement from the {len(older)} older values of the window "
+                              f"(a value occurs more often in the sample than among them)", rep)
+                break
+            ps = float(ks_2samp(np.array(smp), np.array(newest), alternative="two-sided", method="auto").pvalue)
+            if not near(ps, alpha) and bool(d.drift) != (ps <= alpha):
+                out.violation(f"KSWIN: drift={bool(d.drift)} at step {t} but the two-sided KS p-value of (the sample the detector tested, newest {r}) is {ps!r} vs alpha={alpha}", rep)
+                break
+            out.count("kswin_steps_judged_on_the_tested_sample")
+            if sorted(smp) != sorted(float(older[i]) for i in tape):
+                # the tape (NumPy's global generator replayed as the current code uses it) is the MODEL's tie to this code, not a clause of the property
+                if not getattr(run, "_tape_note", False):
+                    run._tape_note = True
+                    out.mismatch(f"KSWIN: the sample tested at step {t} is not the one `np.random.choice(n_old, r, replace=False)` gives at the state of NumPy's global "
+                                 "generator (the model's tape): the code draws its sample in another way", rep)
         pval = float(ks_2samp(np.array([older[i] for i in tape]), np.array(newest), alternative="two-sided", method="auto").pvalue)
-        if not near(pval, alpha) and bool(d.drift) != (pval <= alpha):
+        if smp is None and not near(pval, alpha) and bool(d.drift) != (pval <= alpha):
             # WHICH sample is drawn is not part of the property (it is decided "independently of which random sample is drawn"): this expectation replays NumPy's
             # global generator as the current code uses it - a disagreement is a break of that correspondence, the sample-independent clauses are judged below
             (out.violation if run.tape_ok else out.mismatch)(
                 f"KSWIN: drift={bool(d.drift)} at step {t} but the KS p-value of (the sample drawn from NumPy's global generator, newest {r}) is {pval!r} vs alpha={alpha}"
-                + ("" if run.tape_ok else " - the global generator did not advance as a draw from it would: the code draws its sample elsewhere"), rep)
+                + ("" if run.tape_ok else " - the global generator did not advance as `choice(n_old, r, replace=False)` advances it: the code draws its sample in another way, and makes no single KS test that could be observed"), rep)
             break
         fired = fired or bool(d.drift)
         if math.comb(len(older), r) <= 200:
